@@ -284,7 +284,12 @@ def delete_geff(store: StoreLike, zarr_format: Literal[2, 3] = 2) -> None:
         store (StoreLike): StoreLike geff that should be deleted
         zarr_format (Literal[2, 3], optional): Zarr format used to write input store. Defaults to 2.
     """
-    root = setup_zarr_group(store, zarr_format=zarr_format)
+    # Open the existing group in the zarr format it was written with, which may differ
+    # from the format of the geff that is about to be written
+    try:
+        root = zarr.open_group(store, mode="r+")
+    except (FileNotFoundError, ValueError):
+        root = setup_zarr_group(store, zarr_format=zarr_format)
 
     # Delete node and edge groups
     del root[_path.NODES]
@@ -331,7 +336,12 @@ def check_for_geff(store: StoreLike, zarr_format: Literal[2, 3] = 2) -> bool:
         exists = os.path.exists(store)
     # If store is already open, check for geff key in metadata
     else:
-        root = setup_zarr_group(store, zarr_format=zarr_format)
+        # Look at the existing group, in whichever zarr format it was written, without
+        # creating anything in the store
+        try:
+            root = zarr.open_group(store, mode="r")
+        except (FileNotFoundError, ValueError):
+            return False
         exists = "geff" in root.attrs
 
     return exists
